@@ -97,10 +97,10 @@ def do_run(name, tier="quick", props=None, inplace=False):
         rc, out = sh("git -C /repo apply %s" % patch)
         if rc != 0:
             raise SystemExit("git apply failed: " + out)
-        env = dict(os.environ)
+        env = dict(os.environ, VERIF_EVIDENCE_DIR="/var/tmp/seedrun/evidence")
     else:
         d = scratch(name + "-check", patch)
-        env = dict(os.environ, LENA_REPO=d)
+        env = dict(os.environ, LENA_REPO=d, VERIF_EVIDENCE_DIR="/var/tmp/seedrun/evidence")
     try:
         for p in props:
             t0 = time.time()
